@@ -149,6 +149,12 @@ func nontrivial(rep *twin.Report) bool {
 
 // hangClass classifies a goroutine dump (never the clock) into a signature.
 func hangClass(dump string) (sig string) {
+	if strings.HasPrefix(dump, "sentinel-name-mangled") {
+		return "sentinel-name-mangled"
+	}
+	if strings.HasPrefix(dump, "consumer ended") {
+		return "channels-closed"
+	}
 	sendUnderLock, apiBlocked, readerInRead, readerExists, senderParked := false, false, false, false, false
 	for _, g := range core.Goroutines(dump) {
 		inSend := strings.Contains(g, "(*shared).sendError") || strings.Contains(g, "(*shared).sendEvent")
